@@ -451,19 +451,6 @@ def apply_mod_mapping(match, molecule, graph_out, mol_to_out, out_to_mol):
         if modification not in graph_out.nodes[out_idx]['modifications']:
             graph_out.nodes[out_idx]['modifications'].append(modification)
 
-    # The particles this modification creates belong to the residue(s) it
-    # modifies: give them the residue number of an existing particle of the
-    # modification, preferably one they are bonded to. Otherwise they keep the
-    # number written in the modification, and merge_molecule would continue
-    # numbering the following residues from there.
-    existing = [idx for idx in modification if node_should_exist(modification, idx)]
-    for mod_idx in modification:
-        if existing and not node_should_exist(modification, mod_idx):
-            anchors = [idx for idx in modification[mod_idx] if idx in existing] or existing
-            anchor_resid = graph_out.nodes[mod_to_out[anchors[0]]].get('resid')
-            if anchor_resid is not None:
-                graph_out.nodes[mod_to_out[mod_idx]]['resid'] = anchor_resid
-
     for mol_idx in mol_to_mod:
         for mod_idx, weight in mol_to_mod[mol_idx].items():
             out_idx = mod_to_out[mod_idx]
@@ -616,6 +603,7 @@ def do_mapping(molecule, mappings, to_ff, attribute_keep=(), attribute_must=(), 
     modified_interactions = {}
     all_references = {}
     all_matches = []
+    created_by_mod = set()
     while block_matches or mod_matches:
         # Take the match with the lowest atom id, and prefer blocks over
         # modifications
@@ -623,10 +611,19 @@ def do_mapping(molecule, mappings, to_ff, attribute_keep=(), attribute_must=(), 
                 (mod_matches and
                  mod_sort_key(mod_matches[-1]) < block_sort_key(block_matches[-1]))):
             match = mod_matches.pop(-1)
+            known_nodes = set(graph_out.nodes)
+            last_resid = graph_out.nodes[graph_out.max_node].get('resid', 1) if known_nodes else 0
             applied_interactions, refs = apply_mod_mapping(match,
                                                            molecule, graph_out,
                                                            mol_to_out, out_to_mol)
             modified_interactions.update(applied_interactions)
+            # The particles this modification created carry the residue number
+            # written in the modification. merge_molecule continues numbering
+            # from the last particle, so until all blocks are placed they take
+            # the number of the particle that was last before them.
+            for out_idx in set(graph_out.nodes) - known_nodes:
+                created_by_mod.add(out_idx)
+                graph_out.nodes[out_idx]['resid'] = last_resid
         else:
             match = block_matches.pop(-1)
             overlap, none_to_one, refs = apply_block_mapping(match,
@@ -697,6 +694,26 @@ def do_mapping(molecule, mappings, to_ff, attribute_keep=(), attribute_must=(), 
                                type='inconsistent-data')
         if graph_out.nodes[out_idx].get('atomname', '') is None:
             to_remove.add(out_idx)
+
+    # The particles created by modifications belong to the residue their atoms
+    # come from; failing that, to the residue of a particle they are bonded to.
+    if created_by_mod:
+        def residue_of(mol_idx):
+            node = molecule.nodes[mol_idx]
+            return node.get('chain'), node.get('resid'), node.get('insertion_code')
+        resid_out = {}
+        for out_idx, mol_idxs in out_to_mol.items():
+            if out_idx not in created_by_mod:
+                for mol_idx in mol_idxs:
+                    resid_out.setdefault(residue_of(mol_idx), graph_out.nodes[out_idx].get('resid'))
+        for out_idx in sorted(created_by_mod):
+            resids = [resid_out[residue_of(mol_idx)] for mol_idx in out_to_mol.get(out_idx, ())
+                      if resid_out.get(residue_of(mol_idx)) is not None]
+            if not resids:
+                resids = [graph_out.nodes[neighbor].get('resid') for neighbor in graph_out[out_idx]
+                          if neighbor not in created_by_mod and graph_out.nodes[neighbor].get('resid') is not None]
+            if resids:
+                graph_out.nodes[out_idx]['resid'] = min(resids)
 
     # We need to add edges between residues. Within residues comes from the
     # blocks.
